@@ -35,13 +35,18 @@ MULTS = (0.125, 2.0, 1024.0)
 SHIFTS = (128.0, -4096.0)
 
 
-def _series(n, seed):
+def _series(n, seed, tight=False):
   """Seeded pretest pair: control = level + random walk, treatment = affine in
-  the control plus noise (residual variance > 0)."""
+  the control plus noise (residual variance > 0).  `tight` pairs are almost
+  collinear (correlation above the default rho_max = 0.995), so that the
+  required impact is exercised at correlations no cap should touch."""
   rng = np.random.default_rng([seed, n, 5])
   x = 200.0 + 10.0 * np.cumsum(rng.normal(0, 1, n)) + rng.normal(0, 2, n)
   b = rng.uniform(0.3, 3.0)
-  y = 50.0 + b * x + rng.normal(0, rng.uniform(2.0, 20.0), n)
+  sd = rng.uniform(2.0, 20.0)
+  if tight:
+    sd = 0.02 * b * float(np.std(x))
+  y = 50.0 + b * x + rng.normal(0, sd, n)
   return x, y
 
 
@@ -65,7 +70,7 @@ def _work(task):
   from matched_markets.methodology import tbrmmdiagnostics as dg
   col = L.Collector()
   n, n_test, seed = task['n'], task['n_test'], task['seed']
-  x, y = _series(n, seed)
+  x, y = _series(n, seed, tight=(task['chunk'] == 3))
   var0 = float(np.var(x))                 # ddof = 0
   rho = float(np.corrcoef(x, y)[0, 1])
   a, b, resid, s2, sxx = L.ols(x, y)
@@ -75,7 +80,9 @@ def _work(task):
     for flevel in FLEVELS:
       inp = dict(series_seed=seed, n=n, n_test=n_test, sig_level=sig,
                  power_level=power, flevel=flevel,
-                 generator='mmverif.monitors.c05._series(n, series_seed)')
+                 tight=(task['chunk'] == 3), corr=rho,
+                 generator='mmverif.monitors.c05._series(n, series_seed, '
+                           'tight)')
       par = dp.TBRMMDesignParameters(n_test=n_test, iroas=1.0, sig_level=sig,
                                      power_level=power, flevel=flevel)
       in_region = sig + power <= 1.0 + 1e-12
